@@ -1,0 +1,7 @@
+//go:build !verif
+// +build !verif
+
+package messages
+
+// verifPoint is a no-op unless built with the verif tag.
+func verifPoint(name string, offset uint64) {}
